@@ -54,6 +54,7 @@ func (c *c13) Cases(tier string, seed int64) []core.Case {
 					cs = append(cs, core.MkCase(fmt.Sprintf("%s-set%d-%s-t%d", f, s, fam, t), c13Params{sd, f, fam, t, tier == "thorough"}))
 				}
 			}
+			cs = append(cs, core.MkCase(fmt.Sprintf("%s-set%d-bigfile", f, s), c13Params{sd, f, "bigfile", -1, tier == "thorough"}))
 			cs = append(cs, core.MkCase(fmt.Sprintf("%s-set%d-subsets", f, s), c13Params{sd, f, "subsets", -1, tier == "thorough"}))
 			cs = append(cs, core.MkCase(fmt.Sprintf("%s-set%d-crash-points", f, s), c13Params{sd, f, "crash-points", -1, tier == "thorough"}))
 		}
@@ -78,6 +79,9 @@ type hostileEnv struct {
 
 func (h *hostileEnv) close() { os.RemoveAll(h.root) }
 
+// hostileBigFile makes the first data file larger than 16 KiB.
+var hostileBigFile bool
+
 func newHostileEnv(format string, seed int64) (*hostileEnv, error) {
 	rng := rand.New(rand.NewSource(seed))
 	root, err := os.MkdirTemp("", "c13-")
@@ -87,12 +91,18 @@ func newHostileEnv(format string, seed int64) (*hostileEnv, error) {
 	h := &hostileEnv{fmt: format, root: root, dir: filepath.Join(root, "set"), pristine: map[string][]byte{}, data: map[string][]byte{}}
 	if format == "par2" {
 		slice := []int{8, 16, 64}[rng.Intn(3)]
+		if hostileBigFile {
+			slice = 2000
+		}
 		set := scen.Set{SliceSize: slice, Blocks: 3 + rng.Intn(3), Content: "random"}
 		nf := 2 + rng.Intn(2)
 		for i := 0; i < nf; i++ {
 			n := scen.SizeAround(rng, slice, false)
 			if i == 0 {
 				n = 3*slice + 1 + rng.Intn(slice)
+				if hostileBigFile {
+					n = 16384 + 2000 + rng.Intn(3000)
+				}
 			}
 			set.Files = append(set.Files, scen.File{Name: []string{"a.bin", "sub/b.bin", "c c.txt"}[i], Data: scen.GenData(rng, "random", n, slice)})
 		}
@@ -131,6 +141,9 @@ func newHostileEnv(format string, seed int64) (*hostileEnv, error) {
 			if len(files[i].Data) > 500 {
 				files[i].Data = files[i].Data[:500]
 			}
+		}
+		if hostileBigFile {
+			files[0].Data = scen.GenData(rng, "random", 16384+1000+rng.Intn(3000), 16)
 		}
 		h.set = scen.Set{Files: files, Blocks: 3, SliceSize: 4}
 		os.MkdirAll(h.dir, 0755)
@@ -430,7 +443,9 @@ func (c *c13) Run(cs core.Case) core.Result {
 	var p c13Params
 	core.Decode(cs, &p)
 	r := core.NewR(cs)
+	hostileBigFile = p.Family == "bigfile"
 	h, err := newHostileEnv(p.Fmt, p.Seed)
+	hostileBigFile = false
 	if h != nil {
 		defer h.close()
 	}
@@ -564,6 +579,34 @@ func (c *c13) Run(cs core.Case) core.Result {
 			r.Key("%s|garbage|%s|deleted", p.Fmt, rel)
 		}
 		r.Sample(map[string]interface{}{"format": p.Fmt, "family": p.Family, "target": rel, "target_bytes": len(orig), "boundaries": len(bounds)})
+	case "bigfile":
+		// a data file larger than 16 KiB: the boundary of the first-16-KiB hash
+		rel := filepath.FromSlash(h.set.Files[0].Name)
+		orig := h.data[rel]
+		for _, o := range []int{0, 1, 16383, 16384, 16385, 16384 - h.set.SliceSize, 16384 + h.set.SliceSize, len(orig) - 1, len(orig) / 2} {
+			if o < 0 || o >= len(orig) {
+				continue
+			}
+			h.restore()
+			write(rel, orig[:o])
+			h.judge(r, fmt.Sprintf("truncate %s (%d bytes) at %d", rel, len(orig), o))
+			r.Key("%s|bigfile-truncate|%d", p.Fmt, o)
+			for bit := 0; bit < 8; bit += 3 {
+				h.restore()
+				b := append([]byte(nil), orig...)
+				b[o] ^= 1 << uint(bit)
+				write(rel, b)
+				h.judge(r, fmt.Sprintf("flip bit %d of byte %d of %s (%d bytes)", bit, o, rel, len(orig)))
+				r.Key("%s|bigfile-flip|%d.%d", p.Fmt, o, bit)
+			}
+		}
+		for _, extra := range [][]byte{{0}, {0, 0, 0}, scen.Garbage(rng, 1), scen.Garbage(rng, 2500)} {
+			h.restore()
+			write(rel, append(append([]byte(nil), orig...), extra...))
+			h.judge(r, fmt.Sprintf("%d bytes appended to %s (%d bytes)", len(extra), rel, len(orig)))
+			r.Key("%s|bigfile-append|%d|%d", p.Fmt, len(extra), extra[0])
+		}
+		r.Sample(map[string]interface{}{"format": p.Fmt, "family": "bigfile", "target": rel, "target_bytes": len(orig)})
 	case "subsets":
 		n := len(h.names)
 		if n > 10 {
